@@ -179,7 +179,7 @@ def def_IndexedQuery : TypeDef :=
     fields := [
       ⟨"ir_query", .path "IRQuery" []⟩,
       ⟨"vids", .path "BTreeMap" [.path "Vid" [], .path "Arc" [.path "IRQueryComponent" []]]⟩,
-      ⟨"eids", .path "HashMap" [.path "Eid" [], .path "EdgeKind" []]⟩,
+      ⟨"eids", .path "BTreeMap" [.path "Eid" [], .path "EdgeKind" []]⟩,
       ⟨"outputs", .path "BTreeMap" [.path "Arc" [.path "str" []], .path "Output" []]⟩] }
 
 /-- `InterpretedQuery` struct (interpreter/mod.rs) -/
